@@ -425,8 +425,41 @@ def common_prelude(ctx, props_file, n_quick, n_thorough, profile="mixed"):
     return built, worlds, results
 
 
+def replay_corpus(ctx, sub, fid, fails, what):
+    """Replay corpus/<sub>/<fid>*.json on the implementation; print the KNOWN-FINDING line only if it still fails."""
+    d = os.path.join(core.ROOT, "corpus", sub)
+    for f in sorted(os.listdir(d)) if os.path.isdir(d) else []:
+        if not f.startswith(fid):
+            continue
+        w = json.load(open(os.path.join(d, f)))["world"]
+        r = run_worlds([w], probe=False)[0]
+        if fails(w, r):
+            ctx.known(fid, what)
+        return r
+    return None
+
+
+def hypothesis_monitor(ctx, worlds, results):
+    """The capacity theorem assumes `dep_linked`: decided tasks that depend on one another are linked by a chain of
+    co-decided parents.  Checked (dep_linkedb) on every instance the real get_schedulable_tasks produced."""
+    idx = [i for i, r in enumerate(results) if r.get("order")]
+    cases = [g_instance(worlds[i], results[i]) for i in idx]
+    try:
+        bad = ctx.monitor_stream("M-hyp", HEADER, "instance", "dep_linkedb", cases, shard=200)
+        for b in bad[:2]:
+            ctx.violation("hyp%d" % b, {"stream": "M-hyp", "world": worlds[idx[b]], "order": results[idx[b]]["order"],
+                                        "what": "the planner was offered two dependent tasks without the tasks between them: "
+                                                "hypothesis dep_linked of C10_ilp_capacity does not cover this reachable input"})
+    except core.ModelEvalError as e:
+        ctx.broken.append({"kind": "monitor", "name": "M-hyp", "detail": str(e)[-800:]})
+
+
 def run(ctx):
     built, worlds, results = common_prelude(ctx, ctx.pid, 120, 1200)
+    replay_corpus(ctx, "C10_ilp", "ILP-H1", lambda w, r: "AttributeError" in r.get("error", ""),
+                  "schedule() raises AttributeError for a SCHEDULED task with a strategy that does not fit on some worker "
+                  "(ilp_scheduler.py:248-255)")
+    hypothesis_monitor(ctx, worlds, results)
     stream_csys(ctx, worlds, results)
     stream_plan(ctx, worlds, results)
     run_sat_monitor(ctx, worlds, results)
